@@ -1772,7 +1772,11 @@ class Scheduler:
 
         if not has_updated and not self.stop_mode:
             # Has the workflow stalled?
-            self.check_workflow_stalled()
+            # (Not if tasks spawned in this iteration, still runahead-limited,
+            # can be released.)
+            self.pool.compute_runahead()
+            if not self.pool.release_runahead_tasks():
+                self.check_workflow_stalled()
 
         # Sleep a bit for things to catch up.
         # Quick sleep if there are items pending in process pool.
